@@ -144,6 +144,15 @@ def check_string(acc, M, reg, s, cfg, clause="input", case_sensitive=True):
     if o["get_name"][0] != "ok" or o["get_name"][1] not in want_names:
         acc.violation([clause, "get_name", "canonical-name-is-not-a-reading-of-the-string", cls], case, sorted(want_names), o["get_name"])
         return
+    # the plural 's' is the OPTIONAL last resort of the rule: a reading that accounts for the whole string without it
+    # comes before any reading that needs it (amps = atto + mps, not amp + s)
+    if exp[0] == "readings" and case_sensitive:
+        st_, pt_ = M.spelling_table(), M.prefix_table()
+        whole = {(pn, st_[s[len(ps):]]) for ps, pn in [("", "")] + list(pt_.items()) if s.startswith(ps) and s[len(ps):] in st_}
+        whole_names = {p_ + u_ for p_, u_ in whole if (p_, u_) in usable}
+        if whole_names and len(want_names) > len(whole_names) and o["get_name"][1] not in whole_names and o["get_name"][1] in want_names:
+            acc.violation([clause, "get_name", "plural-reading-preferred-over-a-reading-of-the-whole-string", cls], case, sorted(whole_names), o["get_name"])
+            return
     if o["get_symbol"][0] != "ok" or o["get_symbol"][1] not in want_syms:
         acc.violation([clause, "get_symbol", "symbol-is-not-that-of-the-definition", cls], case, sorted(want_syms), o["get_symbol"])
     # name and symbol must belong to the SAME reading
